@@ -1,7 +1,229 @@
 package main
 
-import "verif/harness/vtrace"
+import (
+	"encoding/json"
+	"fmt"
+	"runtime"
+	"sync"
+	"sync/atomic"
+	"time"
+
+	"github.com/cloudwego/hertz/pkg/common/timer"
+
+	"verif/harness/vtrace"
+)
+
+// One timer case: kind "scn" = a scenario (steps of two users, replayed in order by one goroutine on one P, so that
+// sync.Pool hands a released timer to the next AcquireTimer); kind "storm" = several goroutines acquire a very short
+// timer, release it around its expiry and look whether a timer acquired for an hour right afterwards has a tick.
+type timerCase struct {
+	Kind    string `json:"kind"`
+	Ms      int    `json:"ms"`
+	Workers int    `json:"workers"`
+	Steps   []struct {
+		Op string `json:"op"`
+		U  int    `json:"u"`
+		D  string `json:"d"`
+	} `json:"steps"`
+}
+
+const (
+	shortD  = 2 * time.Millisecond
+	longD   = 1000 * time.Second
+	patient = 2 * time.Second // generous one-sided bound: a 2 ms timer that has not fired after 2 s never will
+)
+
+func durOf(d string) time.Duration {
+	if d == "s" {
+		return shortD
+	}
+	return longD
+}
 
 func newTimerRunner() func(raw []byte, echo vtrace.Rec, w *vtrace.Writer) error {
-	return func(raw []byte, echo vtrace.Rec, w *vtrace.Writer) error { return nil }
+	// the scenarios need the buffered timer channel of Go < 1.23 (len(t.C) shows an unreceived tick)
+	probe := time.NewTimer(time.Nanosecond)
+	time.Sleep(5 * time.Millisecond)
+	if len(probe.C) != 1 {
+		panic("x03: this binary runs with Go 1.23 timer channels (asynctimerchan=0); the scenarios need the buffered channel")
+	}
+	procs := runtime.GOMAXPROCS(0)
+	seen := map[*time.Timer]bool{} // every timer ever handed out in this process (kept alive: addresses stay unique)
+	return func(raw []byte, echo vtrace.Rec, w *vtrace.Writer) error {
+		var c timerCase
+		if err := json.Unmarshal(raw, &c); err != nil {
+			return err
+		}
+		w.Emit("Case", echo)
+		if c.Kind == "storm" {
+			runtime.GOMAXPROCS(procs)
+			runStorm(&c, w)
+			return nil
+		}
+		if runtime.GOMAXPROCS(0) != 1 {
+			runtime.GOMAXPROCS(1)
+		}
+		return runScenario(&c, w, seen)
+	}
+}
+
+func runScenario(c *timerCase, w *vtrace.Writer, seen map[*time.Timer]bool) error {
+	ids := map[*time.Timer]int{}
+	var order []*time.Timer
+	hold := map[int]*time.Timer{}
+	last := map[int]*time.Timer{}
+	start := map[int]time.Time{}
+	el := func(u int) int64 { return time.Since(start[u]).Microseconds() }
+	var infra error
+	for _, st := range c.Steps {
+		u := st.U
+		func() {
+			defer func() {
+				if p := recover(); p != nil {
+					ev := "Panic"
+					if st.Op == "A" {
+						ev = "AcqPanic"
+					}
+					w.Emit(ev, vtrace.Rec{"u": u, "op": st.Op, "value": fmt.Sprint(p)})
+				}
+			}()
+			switch st.Op {
+			case "A":
+				d := durOf(st.D)
+				start[u] = time.Now()
+				t := timer.AcquireTimer(d)
+				peek := len(t.C)
+				e := el(u)
+				if _, ok := ids[t]; !ok {
+					if seen[t] {
+						infra = fmt.Errorf("a timer of an earlier case came out of the pool (clean-up failed)")
+					}
+					seen[t] = true
+					ids[t] = len(ids) + 1
+					order = append(order, t)
+				}
+				hold[u] = t
+				w.Emit("Acq", vtrace.Rec{"u": u, "d_us": d.Microseconds(), "tid": ids[t], "peek": peek, "el_us": e})
+			case "W":
+				t := hold[u]
+				fired := false
+				for dl := time.Now().Add(patient); time.Now().Before(dl); {
+					if len(t.C) == 1 {
+						fired = true
+						break
+					}
+					time.Sleep(50 * time.Microsecond)
+				}
+				w.Emit("Wait", vtrace.Rec{"u": u, "fired": fired, "el_us": el(u)})
+			case "R":
+				t := hold[u]
+				got := false
+				giveUp := time.NewTimer(patient)
+				select {
+				case <-t.C:
+					got = true
+				case <-giveUp.C:
+				}
+				e := el(u)
+				giveUp.Stop()
+				w.Emit("Recv", vtrace.Rec{"u": u, "got": got, "el_us": e})
+			case "T":
+				t := hold[u]
+				got := false
+				select {
+				case <-t.C:
+					got = true
+				default:
+				}
+				w.Emit("Try", vtrace.Rec{"u": u, "got": got, "el_us": el(u)})
+			case "X":
+				t := hold[u]
+				timer.ReleaseTimer(t)
+				delete(hold, u)
+				last[u] = t
+				w.Emit("Rel", vtrace.Rec{"u": u, "left": len(t.C)})
+			case "Y":
+				t := last[u]
+				timer.ReleaseTimer(t)
+				w.Emit("RelAgain", vtrace.Rec{"u": u, "left": len(t.C)})
+			default:
+				infra = fmt.Errorf("unknown step %q", st.Op)
+			}
+		}()
+		if infra != nil {
+			return infra
+		}
+	}
+	w.Emit("Done", vtrace.Rec{"timers": len(ids)})
+	// clean-up (not judged): stop everything this case touched, then empty the pool
+	for _, t := range order {
+		t.Stop()
+		select {
+		case <-t.C:
+		default:
+		}
+	}
+	for i := 0; i < 64; i++ {
+		var t *time.Timer
+		func() {
+			defer func() { recover() }()
+			t = timer.AcquireTimer(longD)
+		}()
+		if t == nil {
+			continue
+		}
+		t.Stop()
+		if !seen[t] {
+			return nil
+		}
+	}
+	return fmt.Errorf("the timer pool could not be emptied")
+}
+
+func runStorm(c *timerCase, w *vtrace.Writer) {
+	var stale, iters, panics int64
+	var wg sync.WaitGroup
+	stop := time.Now().Add(time.Duration(c.Ms) * time.Millisecond)
+	for g := 0; g < c.Workers; g++ {
+		wg.Add(1)
+		go func(g int) {
+			defer wg.Done()
+			d := time.Duration(1000+g*300) * time.Nanosecond
+			n := 0
+			for time.Now().Before(stop) {
+				storm500(d, &n, &stale, &panics)
+				atomic.AddInt64(&iters, 500)
+			}
+		}(g)
+	}
+	wg.Wait()
+	// stale = how often a timer acquired for 1000 s had a tick in its channel 2 microseconds later
+	w.Emit("Storm", vtrace.Rec{"iters": iters, "stale": stale, "panics": panics})
+}
+
+func storm500(d time.Duration, np *int, stale, panics *int64) {
+	defer func() {
+		if p := recover(); p != nil {
+			atomic.AddInt64(panics, 1)
+		}
+	}()
+	n := *np
+	defer func() { *np = n }()
+	for k := 0; k < 500; k++ {
+		t := timer.AcquireTimer(d)
+		spin := time.Duration(n%40) * 100 * time.Nanosecond // release somewhere around the expiry
+		for s := time.Now(); time.Since(s) < spin; {
+		}
+		timer.ReleaseTimer(t)
+		t2 := timer.AcquireTimer(longD)
+		for s := time.Now(); time.Since(s) < 2*time.Microsecond; {
+		}
+		select {
+		case <-t2.C:
+			atomic.AddInt64(stale, 1)
+		default:
+		}
+		timer.ReleaseTimer(t2)
+		n++
+	}
 }
